@@ -248,6 +248,15 @@ def run(t):
         parts.append(srcgen.case_block(n, f"ds.Select({fname})"))
         index.append((n, f"ds.Select({fname})", [("Select", want)], True, "one-line-def"))
         n += 1
+    # the same lambda expression (one source location, one code object) passed several times with
+    # other captured values: every time the recorded lambda is the callable passed THAT time (seed
+    # C03_h: recovered lambdas cached per code object, with the first call's values baked in)
+    parts.append("def _bq(cut, lo):\n    return ds.Where(lambda x: x.a > cut and x.b < lo)\n")
+    for cut, lo in ((10, 1), (20, 2), (10, 1), (5, 0)):
+        parts.append(srcgen.case_block(n, f"_bq({cut}, {lo})"))
+        index.append((n, f"_bq({cut}, {lo})", [("Where", f"lambda x: x.a > {cut} and x.b < {lo}")], True,
+                      "same-lambda-other-captures"))
+        n += 1
     # a function behind a functools.wraps decorator computes something else than its own source
     # says: it may be refused, the undecorated body must never be recorded (repaired defect)
     parts.append("import functools\ndef _dbl(f):\n    @functools.wraps(f)\n    def w(e):\n        return 2 * f(e)\n    return w\n"
